@@ -17,6 +17,19 @@ var knownHookEvents = map[string]bool{
 	"post-upgrade": true, "pre-rollback": true, "post-rollback": true, "test": true, "test-success": true,
 }
 
+// Independent of the exported table: a handful of dependency pairs every user relies on (a must be applied before b).
+var c08MustPrecede = [][2]string{
+	{"Namespace", "ConfigMap"}, {"Namespace", "Secret"}, {"Namespace", "ServiceAccount"}, {"Namespace", "Service"}, {"Namespace", "Deployment"}, {"Namespace", "Job"}, {"Namespace", "Pod"},
+	{"ServiceAccount", "Pod"}, {"ServiceAccount", "Deployment"}, {"ServiceAccount", "Job"},
+	{"Secret", "Pod"}, {"Secret", "Deployment"}, {"Secret", "Job"},
+	{"ConfigMap", "Pod"}, {"ConfigMap", "Deployment"}, {"ConfigMap", "Job"},
+	{"Service", "Deployment"},
+	{"ClusterRole", "Deployment"},
+	{"CustomResourceDefinition", "Widget"}, {"CustomResourceDefinition", "Gadget"},
+	// kinds the table does not know come after every kind it knows
+	{"ConfigMap", "Widget"}, {"Deployment", "Widget"}, {"Job", "Widget"}, {"Service", "Gadget"}, {"Pod", "Gadget"}, {"Namespace", "Gizmo"}, {"Job", "Alpha"}, {"Secret", "Zeta"},
+}
+
 func orderIndex(order []string, kind string) int {
 	for i, k := range order {
 		if k == kind {
@@ -163,6 +176,22 @@ func oracleC08(x *Exec, so *StepObs) {
 		// original order = files in path order, documents in file order
 		for i, mk := range chartDocOrder(cs) {
 			posInChart[mk] = i
+		}
+		firstPos, lastPosOf := map[string]int{}, map[string]int{}
+		for i, m := range manOrder {
+			k := str(m["kind"])
+			if _, ok := firstPos[k]; !ok {
+				firstPos[k] = i
+			}
+			lastPosOf[k] = i
+		}
+		for _, pr := range c08MustPrecede {
+			la, okA := lastPosOf[pr[0]]
+			fb, okB := firstPos[pr[1]]
+			if okA && okB && la > fb {
+				fail("install-order", "dependency-pair", fmt.Sprintf("a %s is ordered after a %s in the manifest", pr[0], pr[1]))
+				return
+			}
 		}
 		for _, m := range manOrder {
 			k := str(m["kind"])
